@@ -3,6 +3,14 @@
 //   open <trunc 0|1> <initial_size> <maxoff> <def|fibo|mul|muln> [n dn]
 //   write <off> <hex> | read <off> <len> | copy <off> <siz> <noff> | truncate <size> | ensure <size>
 //   addmm <off> <maxlen> <flags> | rmmm <off> | probe <off> | sync | remap | state | close
+//   syncmm <off> | acquire <off> (acquire_mmap; touches the first and the last byte) | release (release_mmap)
+//   locks <0|1>   the next open uses use_locks = 0|1.  With locks a call that never returns (it waits for a lock the caller
+//                 itself holds) is cut off by an alarm after 2 s and answered "<op> HANG"; the handle is abandoned.
+//   raw <len> <seed>  (handle closed) the data file is written outside the library: len pattern bytes
+//   openro <initial_size> <maxoff> <policy...>  open read-only (omode = IWFS_OREAD); afterwards only read/state/probe/syncmm/close
+//   the plain file underneath (iwfile.c), on a second path <path>.raw:
+//   fopen <omode> <lockmode> | fwrite <off> <hex> | fread <off> <len> | fcopy <off> <siz> <noff> | fsync | fstate | fclose
+//   fraw <len> <seed> | frm (unlink) | fhold <0|1> (the harness itself holds an exclusive flock on <path>.raw through its own fd)
 //   limit <n>   OS-refusal injection: RLIMIT_FSIZE (soft) := n bytes, n < 0 lifts it. SIGXFSZ is ignored, so every
 //               ftruncate/fallocate/write of this process beyond n fails with EFBIG until the limit is lifted.
 //               Accepted in every state (also without an open handle / after a crash).
@@ -23,6 +31,7 @@
 #include <setjmp.h>
 #include <sys/stat.h>
 #include <sys/resource.h>
+#include <sys/file.h>
 #include <fcntl.h>
 #include <unistd.h>
 #include <errno.h>
@@ -40,6 +49,7 @@ static const char *rcname(iwrc rc) {
     case IW_ERROR_IO_ERRNO: return "IOERR";
     case IW_ERROR_ERRNO: return "ERRNO";
     case IW_ERROR_NOT_EXISTS: return "NOTEXISTS";
+    case IW_ERROR_INVALID_ARGS: return "INVARGS";
     case IWFS_ERROR_MAXOFF: return "MAXOFF";
     case IWFS_ERROR_RESIZE_POLICY_FAIL: return "POLFAIL";
     case IWFS_ERROR_MMAP_OVERLAP: return "OVERLAP";
@@ -57,8 +67,28 @@ static void onsig(int sig) {
 }
 
 static IWFS_EXT f;
-static int is_open, poisoned;
+static int is_open, poisoned, use_locks_next, ro_mode;
 static const char *path;
+static IWFS_FILE ff;
+static int ff_open, hold_fd = -1;
+static char rawpath[4096], tmppath[4096];
+
+static uint8_t patbyte(long long seed, long long i) {
+  return (uint8_t) ((seed * 131 + i * 31 + (i >> 8) * 7) % 251 + 1);
+}
+
+static int rawfile(const char *p, long long len, long long seed) {
+  FILE *o = fopen(p, "wb");
+  if (!o) return -1;
+  for (long long i = 0; i < len; ++i) fputc(patbyte(seed, i), o);
+  return fclose(o);
+}
+
+static long long statsz2(const char *p) {
+  struct stat st;
+  if (stat(p, &st)) return -1;
+  return (long long) st.st_size;
+}
 static IW_RNUM rnum;
 
 static long long statsz(void) {
@@ -92,6 +122,7 @@ int main(int argc, char **argv) {
   char *tv[8];
   if (argc < 2) return 2;
   path = argv[1];
+  snprintf(rawpath, sizeof(rawpath), "%s.raw", path);
   iwlog_init();
   struct sigaction sa;
   memset(&sa, 0, sizeof(sa));
@@ -100,6 +131,7 @@ int main(int argc, char **argv) {
   sigaction(SIGSEGV, &sa, 0);
   sigaction(SIGBUS, &sa, 0);
   sigaction(SIGABRT, &sa, 0);
+  sigaction(SIGALRM, &sa, 0);
   signal(SIGXFSZ, SIG_IGN);
   FILE *devnull = fopen("/dev/null", "w");
   static IWLOG_DEFAULT_OPTS lo;
@@ -148,20 +180,116 @@ int main(int argc, char **argv) {
       tail();
       continue;
     }
-    if (!strcmp(op, "open") && n >= 5) {
+    if (!strcmp(op, "locks") && n >= 2) {
+      use_locks_next = atoi(tv[1]) != 0;
+      printf("locks OK");
+      tail();
+      continue;
+    }
+    if (!strcmp(op, "raw") && n >= 3) {
+      if (is_open && !poisoned) { printf("raw BUSY"); tail(); continue; }
+      int rci = rawfile(path, strtoll(tv[1], 0, 10), strtoll(tv[2], 0, 10));
+      printf("raw %s", rci ? "ERR" : "OK");
+      tail();
+      continue;
+    }
+    if (op[0] == 'f' && strcmp(op, "f")) {  // the plain file: fopen fwrite fread fcopy fsync fstate fclose fraw frm fhold
+      if (!strcmp(op, "fraw") && n >= 3) {
+        int rci = ff_open ? -1 : rawfile(rawpath, strtoll(tv[1], 0, 10), strtoll(tv[2], 0, 10));
+        printf("fraw %s fstat=%lld\n", rci ? "ERR" : "OK", statsz2(rawpath));
+      } else if (!strcmp(op, "frm")) {
+        int rci = ff_open ? -1 : unlink(rawpath);
+        printf("frm %s fstat=%lld\n", rci ? "ERR" : "OK", statsz2(rawpath));
+      } else if (!strcmp(op, "fhold") && n >= 2) {
+        int on = atoi(tv[1]), rci = 0;
+        if (on && hold_fd < 0) {
+          hold_fd = open(rawpath, O_RDWR | O_CREAT, 0644);
+          rci = hold_fd < 0 ? -1 : flock(hold_fd, LOCK_EX | LOCK_NB);
+        } else if (!on && hold_fd >= 0) {
+          close(hold_fd);
+          hold_fd = -1;
+        }
+        printf("fhold %s fstat=%lld\n", rci ? "ERR" : "OK", statsz2(rawpath));
+      } else if (!strcmp(op, "fopen") && n >= 3) {
+        if (ff_open) { ff.close(&ff); ff_open = 0; }
+        IWFS_FILE_OPTS fo;
+        memset(&fo, 0, sizeof(fo));
+        fo.omode = (iwfs_omode) atoi(tv[1]);
+        fo.path = (fo.omode & IWFS_OTMP) ? "exfh-" : rawpath;  // IWFS_OTMP: the path is a name prefix inside the temporary directory
+        fo.lock_mode = (iwp_lockmode) atoi(tv[2]);
+        iwrc rc = iwfs_file_open(&ff, &fo);
+        ff_open = !rc;
+        tmppath[0] = 0;
+        IWFS_FILE_STATE fs;
+        memset(&fs, 0, sizeof(fs));
+        if (ff_open) {
+          ff.state(&ff, &fs);
+          if ((fs.opts.omode & IWFS_OTMP) && fs.opts.path) snprintf(tmppath, sizeof(tmppath), "%s", fs.opts.path);
+        }
+        printf("fopen %s open=%d os=%d om=%d lk=%d fm=%o tmp=%d fstat=%lld\n", rcname(rc), ff_open, (int) fs.ostatus, (int) fs.opts.omode,
+               (int) fs.opts.lock_mode, (unsigned) fs.opts.filemode, tmppath[0] && strcmp(tmppath, rawpath) ? 1 : 0,
+               statsz2(tmppath[0] ? tmppath : rawpath));
+      } else if (!ff_open) {
+        printf("%s NOTOPEN fstat=%lld\n", op, statsz2(rawpath));
+      } else if (!strcmp(op, "fwrite") && n >= 3) {
+        uint8_t *b; size_t len = unhex(tv[2], &b), sp = 12345;
+        iwrc rc = ff.write(&ff, (off_t) strtoll(tv[1], 0, 10), b, len, &sp);
+        if (sp == 12345) printf("fwrite %s x fstat=%lld\n", rcname(rc), statsz2(tmppath[0] ? tmppath : rawpath));  // *sp left alone
+        else printf("fwrite %s %zu fstat=%lld\n", rcname(rc), sp, statsz2(tmppath[0] ? tmppath : rawpath));
+        free(b);
+      } else if (!strcmp(op, "fread") && n >= 3) {
+        size_t len = (size_t) strtoull(tv[2], 0, 10), sp = 12345;
+        uint8_t *b = malloc(len + 1);
+        memset(b, 0xAA, len + 1);
+        iwrc rc = ff.read(&ff, (off_t) strtoll(tv[1], 0, 10), b, len, &sp);
+        printf("fread %s %zu ", rcname(rc), sp);
+        puthex(b, sp <= len ? sp : len);
+        printf(" fstat=%lld\n", statsz2(tmppath[0] ? tmppath : rawpath));
+        free(b);
+      } else if (!strcmp(op, "fcopy") && n >= 4) {
+        iwrc rc = ff.copy(&ff, (off_t) strtoll(tv[1], 0, 10), (size_t) strtoull(tv[2], 0, 10), (off_t) strtoll(tv[3], 0, 10));
+        printf("fcopy %s fstat=%lld\n", rcname(rc), statsz2(tmppath[0] ? tmppath : rawpath));
+      } else if (!strcmp(op, "fsync")) {
+        iwrc rc = ff.sync(&ff, 0);
+        printf("fsync %s fstat=%lld\n", rcname(rc), statsz2(tmppath[0] ? tmppath : rawpath));
+      } else if (!strcmp(op, "fstate")) {
+        IWFS_FILE_STATE fs;
+        iwrc rc = ff.state(&ff, &fs);
+        printf("fstate %s open=%d os=%d om=%d lk=%d fstat=%lld\n", rcname(rc), fs.is_open, (int) fs.ostatus, (int) fs.opts.omode,
+               (int) fs.opts.lock_mode, statsz2(tmppath[0] ? tmppath : rawpath));
+      } else if (!strcmp(op, "fclose")) {
+        iwrc rc = ff.close(&ff);
+        ff_open = 0;
+        long long left = statsz2(tmppath[0] ? tmppath : rawpath);
+        if (tmppath[0] && strcmp(tmppath, rawpath)) unlink(tmppath);
+        tmppath[0] = 0;
+        printf("fclose %s fstat=%lld\n", rcname(rc), left);
+      } else {
+        printf("%s BADOP\n", op);
+      }
+      continue;
+    }
+    if ((!strcmp(op, "open") && n >= 5) || (!strcmp(op, "openro") && n >= 4)) {
+      int ro = !strcmp(op, "openro");
+      if (ro) {  // same argument positions as open, without the trunc flag
+        for (int i = n; i > 1; --i) tv[i] = tv[i - 1];
+        tv[1] = (char*) "0";
+        ++n;
+      }
       int trunc = atoi(tv[1]);
       if (is_open && !poisoned) { f.close(&f); }
       is_open = 0;
-      if (poisoned && !trunc) { printf("open POISONED\n"); continue; }
+      if (poisoned && !trunc) { printf("%s POISONED\n", op); continue; }
       poisoned = 0;
+      ro_mode = ro;
       IWFS_EXT_OPTS o;
       memset(&o, 0, sizeof(o));
       o.file.path = path;
-      o.file.omode = IWFS_OWRITE | IWFS_OCREATE | (trunc ? IWFS_OTRUNC : 0);
+      o.file.omode = ro ? IWFS_OREAD : (IWFS_OWRITE | IWFS_OCREATE | (trunc ? IWFS_OTRUNC : 0));
       o.file.lock_mode = IWP_NOLOCK;
       o.initial_size = (off_t) strtoll(tv[2], 0, 10);
       o.maxoff = (uint64_t) strtoull(tv[3], 0, 10);
-      o.use_locks = false;
+      o.use_locks = use_locks_next != 0;
       if (!strcmp(tv[4], "fibo")) {
         o.rspolicy = iw_exfile_szpolicy_fibo;
       } else if (!strcmp(tv[4], "mul")) {
@@ -174,19 +302,26 @@ int main(int argc, char **argv) {
       }
       iwrc rc = iwfs_exfile_open(&f, &o);
       is_open = !rc;
-      printf("open %s", rcname(rc));
+      printf("%s %s", op, rcname(rc));
       tail();
       continue;
     }
     if (poisoned) { printf("%s POISONED\n", op); continue; }
     if (!is_open) { printf("%s NOTOPEN\n", op); continue; }
+    if (ro_mode && strcmp(op, "read") && strcmp(op, "state") && strcmp(op, "probe") && strcmp(op, "syncmm") && strcmp(op, "close")) {
+      printf("%s ROMODE", op);
+      tail();
+      continue;
+    }
     armed = 1;
     int sig = sigsetjmp(jb, 1);
     if (sig) {
       poisoned = 1;
-      printf("%s %s\n", op, sig == SIGBUS ? "SIGBUS" : "CRASH");
+      alarm(0);
+      printf("%s %s\n", op, sig == SIGBUS ? "SIGBUS" : sig == SIGALRM ? "HANG" : "CRASH");
       continue;
     }
+    if (use_locks_next) alarm(2);
     if (!strcmp(op, "write") && n >= 3) {
       uint8_t *b; size_t len = unhex(tv[2], &b), sp = 12345;
       iwrc rc = f.write(&f, (off_t) strtoll(tv[1], 0, 10), b, len, &sp);
@@ -237,6 +372,23 @@ int main(int argc, char **argv) {
       }
       armed = 0;
       printf("probe %s %zu", rcname(rc), sp);
+    } else if (!strcmp(op, "syncmm") && n >= 2) {
+      iwrc rc = f.sync_mmap(&f, (off_t) strtoll(tv[1], 0, 10), 0);
+      armed = 0;
+      printf("syncmm %s", rcname(rc));
+    } else if (!strcmp(op, "acquire") && n >= 2) {
+      uint8_t *mm = 0; size_t sp = 0;
+      iwrc rc = f.acquire_mmap(&f, (off_t) strtoll(tv[1], 0, 10), &mm, &sp);
+      if (!rc && mm && sp) {
+        volatile uint8_t sink = ((volatile uint8_t*) mm)[0] ^ ((volatile uint8_t*) mm)[sp - 1];
+        (void) sink;
+      }
+      armed = 0;
+      printf("acquire %s %zu", rcname(rc), sp);
+    } else if (!strcmp(op, "release")) {
+      iwrc rc = f.release_mmap(&f);
+      armed = 0;
+      printf("release %s", rcname(rc));
     } else if (!strcmp(op, "sync")) {
       iwrc rc = f.sync(&f, 0);
       armed = 0;
@@ -257,9 +409,12 @@ int main(int argc, char **argv) {
       armed = 0;
       printf("%s BADOP", op);
     }
+    alarm(0);
     tail();
   }
   if (is_open && !poisoned) f.close(&f);
+  if (ff_open) ff.close(&ff);
   unlink(path);
+  unlink(rawpath);
   return 0;
 }
